@@ -37,7 +37,8 @@ Definition chk_hints (table : list actor) (pairs : list (actor * N)) : bool :=
    shows after the rollback (through the isolation, if isolated); [pairs]: actor-index hints of
    the ids it returns afterwards. *)
 Definition chk_rollback (e : enc) (changes : list change) (table : list actor) (a : actor)
-                        (iso : option (list N)) (cs : list call_exp) (after : obs) (pairs : list (actor * N)) : bool :=
+                        (iso : option (list N)) (stays_isolated : bool)
+                        (cs : list call_exp) (after : obs) (pairs : list (actor * N)) : bool :=
   let d := mk_tdoc changes table a in
   match txn_open d iso with
   | Ok o =>
@@ -45,8 +46,7 @@ Definition chk_rollback (e : enc) (changes : list change) (table : list actor) (
     match chk_tcalls e o cs with
     | Some o' =>
       let d' := txn_rollback o' in
-      obs_eqb (aview_n e (mkA d' iso)) after
-      && obs_eqb (observe_n e (tx_all (tx_rollback (ot_tx o')))) after
+      obs_eqb (aview_n e (mkA d' (if stays_isolated then iso else None))) after
       && table_eqb (t_table d') table && chk_hints (t_table d') pairs
       && nlist_eqb (m_get_heads (t_m d')) (heads_of changes)
     | None => false
@@ -83,6 +83,26 @@ Definition chk_iso (e : enc) (changes : list change) (table : list actor) (a : a
   | _ => false
   end.
 
+(* a transaction at [hs] whose calls produced no op: nothing is committed *)
+Definition chk_iso_nochange (e : enc) (changes : list change) (table : list actor) (a : actor) (hs : list N)
+                            (cs : list call_exp) (after_iso after_full : obs) : bool :=
+  let d := mk_tdoc changes table a in
+  match txn_open d (Some hs) with
+  | Ok o =>
+    wf_tx_b (ot_tx o)
+    && match chk_tcalls e o cs with
+       | Some o' =>
+         match txn_commit o' 0 with
+         | (d', None) => obs_eqb (aview_n e (mkA d' (Some hs))) after_iso
+                         && obs_eqb (aview_n e (a_integrate (mkA d' (Some hs)))) after_full
+                         && table_eqb (t_table d') table
+         | _ => false
+         end
+       | None => false
+       end
+  | _ => false
+  end.
+
 (* C30: does the id resolve in a replica with this actor table and these ops, and to what *)
 Definition chk_resolve (table : list bytes) (ops : list op) (c : N) (a : bytes) (h : N) (expect : option objtype) : bool :=
   match resolve_obj table ops (EId c a h), expect with
@@ -104,4 +124,53 @@ Fixpoint diag_tcalls (e : enc) (o : otx) (cs : list call_exp) (n : N) : list N +
       else diag_tcalls e o' rest (n + 1)
     | _ => inl [n; 4]
     end
+  end.
+
+Definition diag_iso (e : enc) (changes : list change) (table : list actor) (a : actor) (hs : list N)
+                   (cs : list call_exp) (iactor : actor) (iseq istart : N) (ideps : list N) (iops : list op)
+                   (hash : N) (after_iso after_full : obs) : list N * list op :=
+  let d := mk_tdoc changes table a in
+  match txn_open d (Some hs) with
+  | Ok o =>
+    let m := ot_meta o in
+    if negb (wf_tx_b (ot_tx o)) then ([2], [])
+    else if negb (nlist_eqb (cm_actor m) iactor) then ([3; 1], [])
+    else if negb (cm_seq m =? iseq) then ([3; 2], [])
+    else if negb (cm_start m =? istart) then ([3; 3], [])
+    else if negb (nlist_eqb (cm_deps m) ideps) then ([3; 4], [])
+    else match diag_tcalls e o cs 0 with
+         | inl l => (4 :: l, [])
+         | inr o' =>
+           match first_diff (tx_pending (ot_tx o')) iops 0 with
+           | [] => match txn_commit o' hash with
+                   | (d', Some c) =>
+                     if negb (obs_eqb (aview_n e (mkA d' (Some [ch_hash c]))) after_iso) then ([6], [])
+                     else if negb (obs_eqb (aview_n e (a_integrate (mkA d' (Some [ch_hash c])))) after_full) then ([7], [])
+                     else ([], [])
+                   | _ => ([8], [])
+                   end
+           | l => (5 :: l, tx_pending (ot_tx o'))
+           end
+         end
+  | _ => ([1], [])
+  end.
+
+Definition diag_iso_nochange (e : enc) (changes : list change) (table : list actor) (a : actor) (hs : list N)
+                            (cs : list call_exp) (after_iso after_full : obs) : list N :=
+  let d := mk_tdoc changes table a in
+  match txn_open d (Some hs) with
+  | Ok o =>
+    if negb (wf_tx_b (ot_tx o)) then [2]
+    else match diag_tcalls e o cs 0 with
+         | inl l => 4 :: l
+         | inr o' =>
+           match txn_commit o' 0 with
+           | (d', None) =>
+             if negb (obs_eqb (aview_n e (mkA d' (Some hs))) after_iso) then [6]
+             else if negb (obs_eqb (aview_n e (a_integrate (mkA d' (Some hs)))) after_full) then [7]
+             else if negb (table_eqb (t_table d') table) then [9] else []
+           | _ => [8]
+           end
+         end
+  | _ => [1]
   end.
